@@ -279,12 +279,26 @@ func c14JSONBodies(rng *rand.Rand, g *jgen, body *JS) []string {
 // c14Requests: per structured/mutated requests against the operations of one document
 func c14Requests(rng *rand.Rand, g *jgen, ops []c14op, base string, per int, cfgExtra string, emit func(kind, cfg, method, rawurl string, headers [][2]string, body string)) {
 	cfgs := []string{"authdflt=any", "authdflt=none", "authdflt=nil", "mw=2,authdflt=any", "nf=1,cors=1,authdflt=any", "sf=1,authdflt=any"}
-	for n := 0; n < per; n++ {
+	// systematic part: every operation with every Authorization value of the list (all lengths of a bearer credential among
+	// them), otherwise valid; then the random part
+	authList := []string{"Bearer tok", "tok", "", "Bearer ", "Basic xx", "bearer tok", "BEARER TOK", "Bearer  two-spaces", "Bearer\ttab", "Bearer tok extra", "Bearertok"}
+	for k := 0; k <= len("Bearer tokXYZ"); k++ {
+		authList = append(authList, "Bearer tokXYZ"[:k])
+	}
+	authList = append(authList, "abcdef", "abcdefg", strings.Repeat("B", 4000))
+	sys := len(ops) * len(authList)
+	for n := -sys; n < per; n++ {
 		op := ops[rng.Intn(len(ops))]
 		cfg := cfgs[rng.Intn(len(cfgs))] + cfgExtra
+		sysAuth := ""
+		if n < 0 {
+			op = ops[(n+sys)/len(authList)]
+			sysAuth = authList[(n+sys)%len(authList)]
+			cfg = "authdflt=any" + cfgExtra
+		}
 		// every third request is valid up to its body: every parameter typed and present once, every credential attached, the handler
 		// reached, so that what happens to the BODY is observed (the others: a near-valid request, then one mutation class)
-		allValid := n%3 == 0
+		allValid := n%3 == 0 || n < 0
 		if allValid {
 			cfg = []string{"authdflt=any", "mw=2,authdflt=any"}[rng.Intn(2)] + cfgExtra
 		}
@@ -330,8 +344,12 @@ func c14Requests(rng *rand.Rand, g *jgen, ops []c14op, base string, per int, cfg
 		credential := (n / 3) % 4 // (in turn, so that every class is certain to occur)
 		if allValid {
 			credential = 9
-			hdrs = append(hdrs, [2]string{"Authorization", "Bearer tok"}, [2]string{"X-Api-Key", "k"})
-			q.Add("api_key", "k")
+			if n < 0 {
+				hdrs = append(hdrs, [2]string{"Authorization", sysAuth})
+			} else {
+				hdrs = append(hdrs, [2]string{"Authorization", "Bearer tok"}, [2]string{"X-Api-Key", "k"})
+				q.Add("api_key", "k")
+			}
 		}
 		switch credential {
 		case 0:
@@ -362,6 +380,9 @@ func c14Requests(rng *rand.Rand, g *jgen, ops []c14op, base string, per int, cfg
 		mutation := rng.Intn(12)
 		if allValid {
 			kind, mutation = "valid-up-to-body", 11
+			if n < 0 {
+				kind = "authorization-values"
+			}
 		}
 		switch mutation {
 		case 0:
